@@ -132,3 +132,49 @@ M('C16', 'c16-info-after-okay-swallowed', 'openhtf/plugs/usb/fastboot_protocol.p
   "      if header == 'INFO':\n        info_cb(FastbootMessage(remaining, header))",
   "      if header == 'INFO':\n        if not remaining.endswith('3'): info_cb(FastbootMessage(remaining, header))",
   'one particular INFO packet is not forwarded')
+
+# ---------------------------------------------------------------- C15
+M('C15', 'c15-sign-non-token', 'openhtf/plugs/usb/adb_protocol.py',
+  "      if msg.arg0 != cls.AUTH_TOKEN:\n        raise usb_exceptions.AdbProtocolError('Bad AUTH response: %s' % msg)\n",
+  "",
+  'signs AUTH challenges that are not TOKEN challenges')
+M('C15', 'c15-pubkey-twice', 'openhtf/plugs/usb/adb_protocol.py',
+  "    # None of the keys worked, so send a public key.\n",
+  "    adb_transport.write_message(adb_message.AdbMessage(command='AUTH', arg0=cls.AUTH_RSAPUBLICKEY, arg1=0, data=rsa_keys[0].get_public_key() + '\\0'), timeout)\n",
+  'public key offered twice')
+M('C15', 'c15-reuse-live-id', 'openhtf/plugs/usb/adb_protocol.py',
+  "        if local_id not in list(self._stream_transport_map.keys()):",
+  "        if local_id not in list(self._stream_transport_map.keys()) or local_id == 3:",
+  'a live local id (3) may be handed out again')
+M('C15', 'c15-id-limit-inclusive', 'openhtf/plugs/usb/adb_protocol.py',
+  "              range(self._last_id_used, STREAM_ID_LIMIT),",
+  "              range(self._last_id_used, STREAM_ID_LIMIT + 1),",
+  'local id may equal the id limit')
+M('C15', 'c15-no-clse-on-close', 'openhtf/plugs/usb/adb_protocol.py',
+  "        if stream_transport.remote_id:\n          self.transport.write_message(\n              adb_message.AdbMessage('CLSE', stream_transport.local_id,",
+  "        if stream_transport.remote_id and False:\n          self.transport.write_message(\n              adb_message.AdbMessage('CLSE', stream_transport.local_id,",
+  'close no longer sends CLSE')
+M('C15', 'c15-clse-reply-yields-stream', 'openhtf/plugs/usb/adb_protocol.py',
+  "    if not stream_transport.ensure_opened(timeout):\n      return None",
+  "    stream_transport.ensure_opened(timeout)",
+  'a CLSE reply to OPEN still yields a stream object')
+M('C15', 'c15-keys-reversed', 'openhtf/plugs/usb/adb_protocol.py',
+  "    for rsa_key in rsa_keys:\n      if msg.arg0 != cls.AUTH_TOKEN:",
+  "    for rsa_key in reversed(rsa_keys):\n      if msg.arg0 != cls.AUTH_TOKEN:",
+  'keys tried in reverse order')
+M('C15', 'c15-no-drain', 'openhtf/plugs/usb/adb_protocol.py',
+  "    # The stream is no longer in the map, so it's closed, but check for any\n    # queued messages.\n    try:\n      return stream_transport.message_queue.get_nowait()\n    except queue.Empty:\n      raise usb_exceptions.AdbStreamClosedError(",
+  "    if True:\n      raise usb_exceptions.AdbStreamClosedError(",
+  'queued messages of a closed stream are dropped instead of drained')
+M('C15', 'c15-id-not-released', 'openhtf/plugs/usb/adb_protocol.py',
+  "        del self._stream_transport_map[stream_transport.local_id]\n",
+  "        self._stream_transport_map[-stream_transport.local_id] = self._stream_transport_map.pop(stream_transport.local_id)\n        self._stream_transport_map[stream_transport.local_id] = None if stream_transport.local_id == 4 else self._stream_transport_map.pop(-stream_transport.local_id) and None\n        self._stream_transport_map.pop(stream_transport.local_id) if stream_transport.local_id != 4 else None\n",
+  'local id 4 is never released on close')
+M('C15', 'c15-connect-ignores-maxdata', 'openhtf/plugs/usb/adb_protocol.py',
+  "    if msg.command == 'CNXN':\n      return cls(adb_transport, msg.arg1, msg.data)\n\n    # We got an AUTH response",
+  "    if msg.command == 'CNXN':\n      return cls(adb_transport, MAX_ADB_DATA, msg.data)\n\n    # We got an AUTH response",
+  'maxdata not taken from the device CNXN')
+M('C15', 'c15-noise-not-ignored', 'openhtf/plugs/usb/adb_protocol.py',
+  "    msg = adb_transport.read_until(('AUTH', 'CNXN'), timeout)\n    if msg.command == 'CNXN':\n      return cls(adb_transport, msg.arg1, msg.data)\n\n    # We got an AUTH response",
+  "    msg = adb_transport.read_message(timeout)\n    if msg.command == 'CNXN':\n      return cls(adb_transport, msg.arg1, msg.data)\n\n    # We got an AUTH response",
+  'unrelated packets before CNXN are treated as AUTH')
